@@ -125,6 +125,32 @@ class Mask(FactAnalysis):
         return st
 
 
+def zero_key_lists(repo, fi):
+    """attributes that hold the cliques of the zero specification for the life of the engine: bound once, in the constructor, AFTER the
+    specification has been filled in, to `list(self.structural_zeros.keys())` (or list / tuple / sorted of the table), never re-bound and
+    never mutated by a method of the class (an in-place `+=` on an alias of it is reported by C13)"""
+    from ..engines.memo import ClassInfo, self_attr
+    if fi.cls is None:
+        return set()
+    info = ClassInfo(repo, fi.module, fi.cls.name)
+    init = info.methods.get('__init__')
+    if init is None:
+        return set()
+    body = init.node.body
+    last_fill = max([i for i, st in enumerate(body) if any(
+        isinstance(n, (ast.Assign, ast.AugAssign)) and any(U(t).startswith(ZEROS) for t in (n.targets if isinstance(n, ast.Assign) else [n.target]))
+        for n in ast.walk(st))] or [-1])
+    out = set()
+    for i, st in enumerate(body):
+        if i > last_fill and isinstance(st, ast.Assign) and len(st.targets) == 1 and self_attr(st.targets[0]):
+            v = st.value
+            if isinstance(v, ast.Call) and U(v.func) in ('list', 'tuple', 'sorted') and len(v.args) == 1 and \
+                    U(v.args[0]) in (ZEROS, ZEROS + '.keys()') and info.assigned_in.get(self_attr(st.targets[0]), set()) <= {'__init__'} \
+                    and self_attr(st.targets[0]) not in info.foreign:
+                out.add(self_attr(st.targets[0]))
+    return out
+
+
 class CliqueArg(FactAnalysis):
     """setup: the list passed as the cliques argument of the model constructor has been extended with the
     keys of self.structural_zeros on every path."""
@@ -135,6 +161,7 @@ class CliqueArg(FactAnalysis):
         self.never_none = set(never_none)
         self.sites = 0
         self.reported = set()
+        self.zero_lists = zero_key_lists(ctx.repo, fi)
 
     def refine(self, st, test, truth):
         st2 = Mask.refine(self, st, test, truth)
@@ -221,7 +248,7 @@ class CliqueArg(FactAnalysis):
         return super().loop(s, st)
 
     def mentions_zeros(self, e):
-        return any(U(n) == ZEROS for n in ast.walk(e))
+        return any(U(n) == ZEROS or (isinstance(n, ast.Attribute) and U(n.value) == 'self' and n.attr in self.zero_lists) for n in ast.walk(e))
 
     def visit_expr(self, st, e, stmt):
         for c in calls_in(e):
